@@ -1,5 +1,829 @@
-//! E3: generated programs that use the real `#[divan::bench]` / `#[divan::bench_group]` macros (filled in below).
+//! E3: generated programs that use the real `#[divan::bench]` /
+//! `#[divan::bench_group]` macros. A twin spec is emitted as Rust source
+//! (tracking the line/column of every attribute), compiled as a `harness =
+//! false` bench target of the package in /verif/progs, and the binary is run
+//! with real command lines. Serves C12 (registration) and the macro level of
+//! C17 (argument / const / type glue).
 
-use crate::groups::Groups;
+use std::{
+    collections::BTreeMap,
+    path::{Path, PathBuf},
+    process::Command,
+};
 
-pub fn c17_groups(_g: &mut Groups) {}
+use proptest::{
+    strategy::{Strategy, ValueTree},
+    test_runner::{Config, RngAlgorithm, TestRng, TestRunner},
+};
+use serde::{Deserialize, Serialize};
+
+use super::{
+    c13::{expected_nodes, multiset, printed_nodes},
+    twin::*,
+    twingen,
+    twinref::{self, *},
+};
+use crate::{
+    engine::{classify, Ctx, Tier, Verdict, VERIF_DIR},
+    groups::Groups,
+};
+
+// ---------------------------------------------------------------------------
+// Emitter
+
+#[derive(Default)]
+struct MNode {
+    raw: String,
+    group: Option<Meta>,
+    benches: Vec<BenchSpec>,
+    mods: Vec<MNode>,
+}
+
+fn module_tree(spec: &TwinSpec) -> MNode {
+    fn at<'a>(root: &'a mut MNode, path: &[String]) -> &'a mut MNode {
+        let mut cur = root;
+        for comp in path {
+            if !cur.mods.iter().any(|m| m.raw == *comp) {
+                cur.mods.push(MNode { raw: comp.clone(), ..MNode::default() });
+            }
+            cur = cur.mods.iter_mut().find(|m| m.raw == *comp).unwrap();
+        }
+        cur
+    }
+    let mut root = MNode::default();
+    for item in &spec.items {
+        match item {
+            Item::Bench(b) => at(&mut root, &b.meta.module_path[1..]).benches.push(b.clone()),
+            Item::Group(m) => {
+                let mut path = m.module_path[1..].to_vec();
+                path.push(m.raw_name.clone());
+                at(&mut root, &path).group = Some(m.clone());
+            }
+        }
+    }
+    root
+}
+
+fn lit_str(s: &str) -> String {
+    format!("{s:?}")
+}
+
+fn options_attr(o: &OptSpec, uid_for_form: u32) -> Vec<String> {
+    let mut v = Vec::new();
+    if let Some(x) = o.sample_count {
+        v.push(format!("sample_count = {x}"));
+    }
+    if let Some(x) = o.sample_size {
+        v.push(format!("sample_size = {x}"));
+    }
+    if let Some(t) = &o.threads {
+        let list = t.iter().map(|x| x.to_string()).collect::<Vec<_>>().join(", ");
+        let typed = t.iter().map(|x| format!("{x}usize")).collect::<Vec<_>>().join(", ");
+        match (t.len(), uid_for_form % 3) {
+            (1, 0) => v.push(format!("threads = {}", t[0])),
+            (_, 1) => v.push(format!("threads = Vec::<usize>::from([{typed}])")),
+            _ => v.push(format!("threads = [{list}]")),
+        }
+    }
+    for (k, name) in ["bytes_count", "chars_count", "cycles_count", "items_count"].iter().enumerate() {
+        if let Some(x) = o.counters[k] {
+            v.push(format!("{name} = {x}u64"));
+        }
+    }
+    if let Some(x) = o.min_time_ns {
+        v.push(format!("min_time = std::time::Duration::from_nanos({x})"));
+    }
+    if let Some(x) = o.max_time_ns {
+        v.push(format!("max_time = std::time::Duration::from_nanos({x})"));
+    }
+    if let Some(x) = o.skip_ext_time {
+        v.push(format!("skip_ext_time = {x}"));
+    }
+    if let Some(x) = o.ignore {
+        v.push(format!("ignore = {x}"));
+    }
+    v
+}
+
+fn type_path(i: u8) -> &'static str {
+    match i as usize % TYPE_POOL_LEN {
+        0 => "crate::rt::Alpha",
+        1 => "crate::rt::Beta",
+        2 => "crate::rt::inner::Gamma",
+        3 => "crate::rt::inner::deeper::Delta",
+        4 => "crate::rt::Wrap<4>",
+        5 => "crate::rt::Wrap<16>",
+        6 => "i32",
+        7 => "String",
+        8 => "Vec<i32>",
+        _ => "crate::rt::Alpha",
+    }
+}
+
+/// Types the emitter can express (index 9 of the twin pool depends on the crate name).
+pub fn e3_normalize(spec: &mut TwinSpec, krate: &str) {
+    for item in spec.items.iter_mut() {
+        match item {
+            Item::Bench(b) => {
+                b.meta.module_path[0] = krate.to_string();
+                if let Some(t) = &mut b.types {
+                    for x in t.iter_mut() {
+                        if *x as usize % TYPE_POOL_LEN == 9 {
+                            *x = 0;
+                        }
+                    }
+                    let mut seen = Vec::new();
+                    t.retain(|x| {
+                        let k = *x as usize % TYPE_POOL_LEN;
+                        if seen.contains(&k) {
+                            false
+                        } else {
+                            seen.push(k);
+                            true
+                        }
+                    });
+                }
+                // External constant lists may have up to 20 values (the macro
+                // instantiates 20 slots and truncates).
+                if let Some(ConstList::Usize(v)) = &mut b.consts {
+                    if b.uid % 3 == 0 && !v.is_empty() && b.types.is_none() {
+                        let want = [20usize, 19, 7][(b.uid as usize / 3) % 3];
+                        let mut next = 1000;
+                        while v.len() < want {
+                            v.push(next);
+                            next += 7;
+                        }
+                    }
+                }
+                // `types = []` together with consts registers an empty group
+                // entry (nothing runnable): keep the model simple.
+                if b.types.as_ref().map(|t| t.is_empty()).unwrap_or(false) {
+                    b.consts = None;
+                }
+                if b.consts.as_ref().map(|c| c.len() == 0).unwrap_or(false) && b.types.is_some() {
+                    b.consts = None;
+                }
+            }
+            Item::Group(m) => m.module_path[0] = krate.to_string(),
+        }
+    }
+}
+
+/// Whether the emitted function takes a `Bencher` (its body then logs once per
+/// run; a plain function logs every time it is called).
+pub fn uses_bencher(b: &BenchSpec) -> bool {
+    matches!(b.body, Body::WithInputs | Body::SetsBytesCounter | Body::NoRun) || b.uid % 4 == 1
+}
+
+struct Emitter {
+    lines: Vec<String>,
+    file: String,
+    /// uid -> (line, col) of the `#[divan::bench]` attribute; groups by (path, raw).
+    bench_locs: BTreeMap<u32, (u32, u32)>,
+    group_locs: BTreeMap<(Vec<String>, String), (u32, u32)>,
+    externs: Vec<String>,
+}
+
+impl Emitter {
+    fn push(&mut self, indent: usize, text: &str) -> (u32, u32) {
+        self.lines.push(format!("{}{}", " ".repeat(indent), text));
+        (self.lines.len() as u32, indent as u32 + 1)
+    }
+
+    fn bench(&mut self, indent: usize, b: &BenchSpec) {
+        let uid = b.uid;
+        let mut attr: Vec<String> = Vec::new();
+        if let Some(n) = &b.meta.custom_name {
+            attr.push(format!("name = {}", lit_str(n)));
+        }
+        let mut ignore_attr = false;
+        if let Some(o) = &b.meta.options {
+            let mut o = o.clone();
+            // `#[ignore]` is the other way of writing ignore = true.
+            if o.ignore == Some(true) && uid % 2 == 0 {
+                ignore_attr = true;
+                o.ignore = None;
+            }
+            attr.extend(options_attr(&o, uid));
+        }
+        // Generics.
+        let mut generics: Vec<String> = Vec::new();
+        let mut ty_expr = "\"\"".to_string();
+        let mut cst_expr = "\"\"".to_string();
+        if let Some(t) = &b.types {
+            attr.push(format!("types = [{}]", t.iter().map(|&x| type_path(x)).collect::<Vec<_>>().join(", ")));
+            generics.push("T: 'static".into());
+            ty_expr = "std::any::type_name::<T>()".into();
+        }
+        if let Some(c) = &b.consts {
+            let (ty, lits): (&str, Vec<String>) = match c {
+                ConstList::Usize(v) => ("usize", v.iter().map(|x| x.to_string()).collect()),
+                ConstList::I32(v) => ("i32", v.iter().map(|x| x.to_string()).collect()),
+                ConstList::Char(v) => ("char", v.iter().map(|x| format!("{x:?}")).collect()),
+                ConstList::Bool(v) => ("bool", v.iter().map(|x| x.to_string()).collect()),
+            };
+            if uid % 3 == 0 && !lits.is_empty() {
+                // External constant (non-literal expression): the 20-slot path.
+                self.externs.push(format!("pub const CONSTS_{uid}: [{ty}; {}] = [{}];", lits.len(), lits.join(", ")));
+                attr.push(format!("consts = crate::CONSTS_{uid}"));
+            } else {
+                attr.push(format!("consts = [{}]", lits.join(", ")));
+            }
+            if uid % 2 == 0 {
+                generics.insert(0, format!("const N: {ty}"));
+            } else {
+                generics.push(format!("const N: {ty}"));
+            }
+            cst_expr = "&N.to_string()".into();
+        }
+        // Arguments.
+        let mut params: Vec<String> = Vec::new();
+        let mut arg_expr = "\"\"".to_string();
+        let uses_bencher = uses_bencher(b);
+        if uses_bencher {
+            params.push("bencher: divan::Bencher".into());
+        }
+        if let Some(args) = &b.args {
+            let (param_ty, expr): (String, String) = match args {
+                ArgList::Ints(v) => {
+                    let lits = v.iter().map(|x| x.to_string()).collect::<Vec<_>>().join(", ");
+                    let consecutive = v.len() >= 2 && v.windows(2).all(|w| w[0].checked_add(1) == Some(w[1]));
+                    let e = if v.is_empty() {
+                        "[]".to_string()
+                    } else {
+                        match uid % 5 {
+                            0 => format!("[{lits}]"),
+                            1 => {
+                                self.externs.push(format!("pub const ARGS_{uid}: &[i64] = &[{lits}];"));
+                                format!("crate::ARGS_{uid}")
+                            }
+                            2 => format!("Vec::<i64>::from([{lits}])"),
+                            3 if consecutive => format!("({}i64..={}i64)", v[0], v[v.len() - 1]),
+                            3 => format!("[{lits}].iter().copied()"),
+                            _ => format!("[{lits}].map(|x: i64| x)"),
+                        }
+                    };
+                    ("i64".into(), e)
+                }
+                ArgList::Floats(v) => {
+                    let lits = v.iter().map(|x| format!("{x:?}")).collect::<Vec<_>>().join(", ");
+                    ("f64".into(), if v.is_empty() { "[]".into() } else { format!("[{lits}]") })
+                }
+                ArgList::Strs(v) => {
+                    let lits = v.iter().map(|x| lit_str(x)).collect::<Vec<_>>().join(", ");
+                    if v.is_empty() {
+                        ("&str".into(), "[]".into())
+                    } else {
+                        match uid % 5 {
+                            0 => ("&str".into(), format!("[{lits}]")),
+                            1 => {
+                                self.externs.push(format!("pub const ARGS_{uid}: &[&str] = &[{lits}];"));
+                                ("&str".into(), format!("crate::ARGS_{uid}"))
+                            }
+                            2 => ("&str".into(), format!("[{lits}].map(String::from).to_vec()")),
+                            3 => ("&Box<str>".into(), format!("[{lits}].map(Box::<str>::from)")),
+                            _ => ("&str".into(), format!("[{lits}].map(std::borrow::Cow::<'static, str>::Borrowed)")),
+                        }
+                    }
+                }
+            };
+            params.push(format!("arg: {param_ty}"));
+            arg_expr = "&arg.to_string()".into();
+            if args.len() == 0 {
+                attr.push(format!("args = {expr}"));
+            } else {
+                attr.push(format!("args = {{ crate::rt::bump({uid}); {expr} }}"));
+            }
+        }
+        let generics = if generics.is_empty() { String::new() } else { format!("<{}>", generics.join(", ")) };
+        let attr_text = if attr.is_empty() { "#[divan::bench]".to_string() } else { format!("#[divan::bench({})]", attr.join(", ")) };
+        // Nest some plain functions inside another function's body.
+        let nested = b.args.is_none() && !b.is_generic() && uid % 7 == 3;
+        let mut ind = indent;
+        if nested {
+            self.push(ind, &format!("fn outer_{uid}() {{"));
+            ind += 4;
+        }
+        let loc = self.push(ind, &attr_text);
+        self.bench_locs.insert(uid, loc);
+        if ignore_attr {
+            self.push(ind, "#[ignore]");
+        }
+        let abi = if !uses_bencher && b.args.is_none() && !b.is_generic() && uid % 5 == 2 { "extern \"C\" " } else { "" };
+        let body = if uses_bencher {
+            let run = match b.body {
+                Body::NoRun => "drop(bencher);".to_string(),
+                Body::WithInputs => "bencher.with_inputs(|| 3usize).input_counter(|n: &usize| divan::counter::ItemsCount::new(*n)).bench_values(|n| n);".to_string(),
+                Body::SetsBytesCounter => "bencher.counter(divan::counter::BytesCount::new(7u64)).bench(|| ());".to_string(),
+                Body::Bench => "bencher.bench(|| ());".to_string(),
+            };
+            format!("crate::rt::hit_b({uid}, {ty_expr}, {cst_expr}, {arg_expr}, &bencher); {run}")
+        } else {
+            format!("crate::rt::hit({uid}, {ty_expr}, {cst_expr}, {arg_expr});")
+        };
+        self.push(ind, &format!("pub {abi}fn {}{generics}({}) {{ {body} }}", b.meta.raw_name, params.join(", ")));
+        if nested {
+            self.push(indent, "}");
+        }
+    }
+
+    fn module(&mut self, indent: usize, m: &MNode, path: &mut Vec<String>, reverse: bool) {
+        let mut benches: Vec<&BenchSpec> = m.benches.iter().collect();
+        let mut mods: Vec<&MNode> = m.mods.iter().collect();
+        if reverse {
+            benches.reverse();
+            mods.reverse();
+        }
+        let emit_benches = |this: &mut Emitter| {
+            for b in &benches {
+                this.bench(indent, b);
+            }
+        };
+        if !reverse {
+            emit_benches(self);
+        }
+        for sub in mods {
+            if let Some(g) = &sub.group {
+                let mut attr: Vec<String> = Vec::new();
+                if let Some(n) = &g.custom_name {
+                    attr.push(format!("name = {}", lit_str(n)));
+                }
+                let mut ignore_attr = false;
+                if let Some(o) = &g.options {
+                    let mut o = o.clone();
+                    // `#[ignore]` on the module is the other way of writing ignore = true.
+                    if o.ignore == Some(true) && sub.raw.len() % 2 == 1 {
+                        ignore_attr = true;
+                        o.ignore = None;
+                    }
+                    attr.extend(options_attr(&o, sub.raw.len() as u32));
+                }
+                let text = if attr.is_empty() { "#[divan::bench_group]".to_string() } else { format!("#[divan::bench_group({})]", attr.join(", ")) };
+                let loc = self.push(indent, &text);
+                self.group_locs.insert((path.clone(), sub.raw.clone()), loc);
+                if ignore_attr {
+                    self.push(indent, "#[ignore]");
+                }
+            }
+            self.push(indent, &format!("pub mod {} {{", sub.raw));
+            path.push(sub.raw.clone());
+            self.module(indent + 4, sub, path, reverse);
+            path.pop();
+            self.push(indent, "}");
+        }
+        if reverse {
+            emit_benches(self);
+        }
+    }
+}
+
+/// Emits the program; returns the source and the spec with real locations.
+pub fn emit(spec: &TwinSpec, krate: &str, reverse: bool) -> (String, TwinSpec) {
+    let file = format!("benches/{krate}.rs");
+    let mut e = Emitter { lines: Vec::new(), file: file.clone(), bench_locs: BTreeMap::new(), group_locs: BTreeMap::new(), externs: Vec::new() };
+    e.push(0, "#![allow(dead_code, non_snake_case, unused, non_upper_case_globals, unused_attributes)]");
+    e.push(0, "#[path = \"../rt.rs\"]");
+    e.push(0, "pub mod rt;");
+    e.push(0, "fn main() { rt::main() }");
+    let tree = module_tree(spec);
+    e.module(0, &tree, &mut vec![krate.to_string()], reverse);
+    let externs = std::mem::take(&mut e.externs);
+    for x in externs {
+        e.push(0, &x);
+    }
+    let mut out = spec.clone();
+    for item in out.items.iter_mut() {
+        match item {
+            Item::Bench(b) => {
+                let (line, col) = e.bench_locs[&b.uid];
+                b.meta.loc = Loc { file: file.clone(), line, col };
+            }
+            Item::Group(m) => {
+                if let Some(&(line, col)) = e.group_locs.get(&(m.module_path.clone(), m.raw_name.clone())) {
+                    m.loc = Loc { file: file.clone(), line, col };
+                }
+            }
+        }
+    }
+    (e.lines.join("\n") + "\n", out)
+}
+
+// ---------------------------------------------------------------------------
+// Building
+
+pub fn progs_dir() -> PathBuf {
+    Path::new(VERIF_DIR).join("progs")
+}
+
+/// Writes the package manifest and sources, builds all bench targets, and
+/// returns the executable of each program.
+pub fn build(programs: &[(String, String)]) -> Result<BTreeMap<String, PathBuf>, String> {
+    let dir = progs_dir();
+    let benches = dir.join("benches");
+    let _ = std::fs::remove_dir_all(&benches);
+    std::fs::create_dir_all(&benches).map_err(|e| e.to_string())?;
+    let mut manifest = String::from(
+        "[package]\nname = \"progs\"\nversion = \"0.0.0\"\nedition = \"2021\"\npublish = false\n\n[workspace]\n\n[dependencies]\ndivan = { path = \"/repo\" }\n\n[profile.release]\nopt-level = 2\ndebug = false\ncodegen-units = 16\nincremental = true\npanic = \"unwind\"\noverflow-checks = false\ndebug-assertions = false\n\n",
+    );
+    for (name, source) in programs {
+        std::fs::write(benches.join(format!("{name}.rs")), source).map_err(|e| e.to_string())?;
+        manifest.push_str(&format!("[[bench]]\nname = \"{name}\"\npath = \"benches/{name}.rs\"\nharness = false\n\n"));
+    }
+    std::fs::write(dir.join("Cargo.toml"), manifest).map_err(|e| e.to_string())?;
+    let _ = std::fs::copy("/repo/Cargo.lock", dir.join("Cargo.lock"));
+    let out = Command::new("cargo")
+        .current_dir(&dir)
+        .env("CARGO_NET_OFFLINE", "true")
+        .args(["build", "--release", "--offline", "--benches", "--message-format=json"])
+        .output()
+        .map_err(|e| e.to_string())?;
+    let mut exes = BTreeMap::new();
+    for line in String::from_utf8_lossy(&out.stdout).lines() {
+        let Ok(v) = serde_json::from_str::<serde_json::Value>(line) else { continue };
+        if v["reason"] == "compiler-artifact" {
+            if let (Some(name), Some(exe)) = (v["target"]["name"].as_str(), v["executable"].as_str()) {
+                exes.insert(name.to_string(), PathBuf::from(exe));
+            }
+        }
+    }
+    if !out.status.success() {
+        let stderr = String::from_utf8_lossy(&out.stderr);
+        let rendered: Vec<String> = String::from_utf8_lossy(&out.stdout)
+            .lines()
+            .filter_map(|l| serde_json::from_str::<serde_json::Value>(l).ok())
+            .filter(|v| v["reason"] == "compiler-message" && v["message"]["level"] == "error")
+            .filter_map(|v| v["message"]["rendered"].as_str().map(|s| s.to_string()))
+            .take(3)
+            .collect();
+        return Err(format!("generated programs do not compile (generator bug or divan no longer builds):\n{}\n{}", rendered.join("\n"), stderr.lines().rev().take(5).collect::<Vec<_>>().join("\n")));
+    }
+    Ok(exes)
+}
+
+// ---------------------------------------------------------------------------
+// Running
+
+#[derive(Clone, Debug, Default)]
+pub struct ProgRun {
+    pub stdout: String,
+    pub stderr: String,
+    pub code: i32,
+    /// (uid, type name, const, arg, thread_count)
+    pub hits: Vec<(u32, String, String, String, usize)>,
+    pub arg_evals: BTreeMap<u32, u32>,
+}
+
+fn unesc(s: &str) -> String {
+    s.replace("\\n", "\n").replace("\\p", "|").replace("\\\\", "\\")
+}
+
+pub fn run_prog(exe: &Path, args: &[&str], env: &[(&str, &str)], tag: &str) -> ProgRun {
+    let log = Path::new(VERIF_DIR).join("target").join("twin").join(format!("{tag}.e3log"));
+    let _ = std::fs::create_dir_all(log.parent().unwrap());
+    let _ = std::fs::remove_file(&log);
+    let mut cmd = Command::new(exe);
+    cmd.args(args).env_clear().env("VERIF_LOG", &log);
+    for (k, v) in env {
+        cmd.env(k, v);
+    }
+    let out = match cmd.output() {
+        Ok(o) => o,
+        Err(e) => return ProgRun { stderr: e.to_string(), code: -1, ..ProgRun::default() },
+    };
+    let mut run = ProgRun { stdout: String::from_utf8_lossy(&out.stdout).into(), stderr: String::from_utf8_lossy(&out.stderr).into(), code: out.status.code().unwrap_or(-1), ..ProgRun::default() };
+    if let Ok(text) = std::fs::read_to_string(&log) {
+        for line in text.lines() {
+            let parts: Vec<&str> = line.split('|').collect();
+            match parts.first() {
+                Some(&"H") if parts.len() >= 6 => {
+                    run.hits.push((parts[1].parse().unwrap_or(0), unesc(parts[2]), unesc(parts[3]), unesc(parts[4]), parts[5].parse().unwrap_or(0)));
+                }
+                Some(&"E") if parts.len() >= 2 => *run.arg_evals.entry(parts[1].parse().unwrap_or(0)).or_default() += 1,
+                _ => {}
+            }
+        }
+    }
+    let _ = std::fs::remove_file(&log);
+    run
+}
+
+/// Display form of `std::any::type_name`: module path removed up to a generic
+/// boundary.
+pub fn type_label_of(type_name: &str) -> Option<String> {
+    if type_name.is_empty() {
+        return None;
+    }
+    let cut = type_name.find('<').unwrap_or(type_name.len());
+    let head = &type_name[..cut];
+    let start = head.rfind("::").map(|i| i + 2).unwrap_or(0);
+    Some(type_name[start..].to_string())
+}
+
+// ---------------------------------------------------------------------------
+// Programs of a run
+
+#[derive(Clone, Debug, Serialize, Deserialize)]
+pub struct ProgCase {
+    /// Which generated program (index), and what to do with it.
+    pub program: usize,
+    pub mode: String,
+}
+
+pub struct Built {
+    pub specs: Vec<TwinSpec>,
+    /// (forward exe, reversed-source exe)
+    pub exes: Vec<(PathBuf, PathBuf)>,
+    pub rev_specs: Vec<TwinSpec>,
+}
+
+/// Generates and builds the programs of this run (shard 0 only).
+pub fn programs(ctx: &Ctx, count: usize) -> Result<Built, String> {
+    // The same programs for every property (so that C12 and C17 share one build).
+    let mut seed = [0u8; 32];
+    let mut x = crate::engine::splitmix(ctx.seed ^ 0xE3E3_E3E3);
+    for chunk in seed.chunks_mut(8) {
+        x = crate::engine::splitmix(x);
+        chunk.copy_from_slice(&x.to_le_bytes());
+    }
+    let rng = TestRng::from_seed(RngAlgorithm::ChaCha, &seed);
+    let mut runner = TestRunner::new_with_rng(Config::default(), rng);
+    let mut specs = Vec::new();
+    let mut rev_specs = Vec::new();
+    let mut sources = Vec::new();
+    for k in 0..count {
+        let strat = if k % 2 == 0 { twingen::spec_with(0.25).boxed() } else { twingen::spec_args_heavy().boxed() };
+        let mut spec = if k == 0 { golden_spec() } else { strat.new_tree(&mut runner).map_err(|e| e.to_string())?.current() };
+        let name = format!("p{k}");
+        e3_normalize(&mut spec, &name);
+        let (src, located) = emit(&spec, &name, false);
+        sources.push((name.clone(), src));
+        specs.push(located);
+        let rname = format!("p{k}r");
+        let mut rspec = spec.clone();
+        e3_normalize(&mut rspec, &rname);
+        let (rsrc, rlocated) = emit(&rspec, &rname, true);
+        sources.push((rname, rsrc));
+        rev_specs.push(rlocated);
+    }
+    let exes = build(&sources)?;
+    let mut pairs = Vec::new();
+    for k in 0..count {
+        let f = exes.get(&format!("p{k}")).cloned().ok_or_else(|| format!("no executable for p{k}"))?;
+        let r = exes.get(&format!("p{k}r")).cloned().ok_or_else(|| format!("no executable for p{k}r"))?;
+        pairs.push((f, r));
+    }
+    Ok(Built { specs, exes: pairs, rev_specs })
+}
+
+/// A hand-written program model that contains every special form at once
+/// (always program 0).
+pub fn golden_spec() -> TwinSpec {
+    let loc = || Loc { file: String::new(), line: 0, col: 0 };
+    let meta = |path: &[&str], raw: &str, custom: Option<&str>, options: Option<OptSpec>| Meta {
+        module_path: path.iter().map(|s| s.to_string()).collect(),
+        raw_name: raw.to_string(),
+        custom_name: custom.map(|s| s.to_string()),
+        loc: loc(),
+        options,
+    };
+    let opt = |f: fn(&mut OptSpec)| {
+        let mut o = OptSpec::default();
+        f(&mut o);
+        Some(o)
+    };
+    let bench = |uid: u32, m: Meta, args: Option<ArgList>, types: Option<Vec<u8>>, consts: Option<ConstList>, body: Body| Item::Bench(BenchSpec { meta: m, args, types, consts, body, uid });
+    let k = "k";
+    vec![
+        // A function named like a sibling module that holds several benchmarks and a group with options.
+        bench(1, meta(&[k], "sort", None, None), None, None, None, Body::Bench),
+        Item::Group(meta(&[k], "sort", None, opt(|o| o.ignore = Some(true)))),
+        bench(2, meta(&[k, "sort"], "a", None, None), None, None, None, Body::Bench),
+        bench(3, meta(&[k, "sort"], "b", None, opt(|o| o.ignore = Some(false))), Some(ArgList::Ints(vec![3, 1, 2])), None, None, Body::Bench),
+        bench(4, meta(&[k, "sort"], "c", None, None), None, None, None, Body::WithInputs),
+        // Raw identifiers: module with a group (custom name and options), function.
+        Item::Group(meta(&[k], "r#match", Some("Matching"), opt(|o| {
+            o.sample_count = Some(2);
+            o.counters[3] = Some(5);
+        }))),
+        bench(5, meta(&[k, "r#match"], "r#fn", None, None), None, None, None, Body::Bench),
+        bench(6, meta(&[k, "r#match"], "r#type", Some("custom name"), opt(|o| o.threads = Some(vec![2, 1, 2]))), Some(ArgList::Strs(vec!["b".into(), "a10".into(), "a9".into()])), None, None, Body::Bench),
+        // Group without options on a plain module, nested modules.
+        Item::Group(meta(&[k], "outer", None, None)),
+        Item::Group(meta(&[k, "outer"], "inner", Some("größe"), opt(|o| o.skip_ext_time = Some(true)))),
+        bench(7, meta(&[k, "outer", "inner"], "deep", None, opt(|o| o.min_time_ns = Some(10))), None, None, None, Body::SetsBytesCounter),
+        // Generic forms.
+        bench(9, meta(&[k], "over_types", None, None), None, Some(vec![0, 2, 4, 6, 8]), None, Body::Bench),
+        bench(12, meta(&[k], "ext_consts", None, opt(|o| o.sample_size = Some(1))), None, None, Some(ConstList::Usize((1..=20).collect())), Body::Bench),
+        bench(10, meta(&[k], "lit_consts", None, None), None, None, Some(ConstList::I32(vec![-5, 10, 9])), Body::Bench),
+        bench(13, meta(&[k], "both", Some("types x consts"), None), Some(ArgList::Ints(vec![10, 9])), Some(vec![1, 7]), Some(ConstList::Char(vec!['z', 'a'])), Body::Bench),
+        // Empty lists register nothing.
+        bench(14, meta(&[k], "no_types", None, None), None, Some(vec![]), None, Body::Bench),
+        bench(16, meta(&[k], "no_consts", None, None), None, None, Some(ConstList::Bool(vec![])), Body::Bench),
+        bench(18, meta(&[k], "no_args", None, None), Some(ArgList::Ints(vec![])), None, None, Body::Bench),
+        // Nested in a function body (uid % 7 == 3), extern "C" (uid % 5 == 2, no Bencher).
+        bench(24, meta(&[k], "nested", None, None), None, None, None, Body::Bench),
+        bench(22, meta(&[k], "c_abi", None, None), None, None, None, Body::Bench),
+        // `#[ignore]` attribute form (even uid) next to `ignore = true` (odd uid).
+        bench(26, meta(&[k], "ignored_by_attr", None, opt(|o| o.ignore = Some(true))), None, None, None, Body::Bench),
+        bench(27, meta(&[k], "ignored_by_option", None, opt(|o| {
+            o.ignore = Some(true);
+            o.sample_count = Some(1);
+        })), None, None, None, Body::Bench),
+        Item::Group(meta(&[k], "igmod", None, opt(|o| o.ignore = Some(true)))),
+        bench(28, meta(&[k, "igmod"], "inside", None, None), None, None, None, Body::Bench),
+    ]
+    .into_iter()
+    .collect::<Vec<_>>()
+    .into()
+}
+
+impl From<Vec<Item>> for TwinSpec {
+    fn from(items: Vec<Item>) -> Self {
+        TwinSpec { items }
+    }
+}
+
+pub fn program_count(tier: Tier) -> usize {
+    match tier {
+        Tier::Quick => 10,
+        Tier::Thorough => 48,
+    }
+}
+
+// ---------------------------------------------------------------------------
+// C17 (macro level)
+
+pub fn judge_c17(spec: &TwinSpec, run: &ProgRun) -> Result<bool, (String, String)> {
+    if run.code != 0 {
+        return Err(("program-exit".into(), format!("exit code {}: {}", run.code, run.stderr.lines().rev().take(4).collect::<Vec<_>>().join(" / "))));
+    }
+    let printed = parse_tree(&run.stdout, false).map_err(|e| ("malformed-tree".to_string(), format!("{e}\n{}", run.stdout)))?;
+    fn rows(nodes: &[PNode]) -> Vec<Vec<String>> {
+        fn walk(n: &PNode, path: &mut Vec<String>, out: &mut Vec<Vec<String>>) {
+            path.push(n.name.clone());
+            if n.children.is_empty() {
+                out.push(path.clone());
+            } else {
+                for c in &n.children {
+                    walk(c, path, out);
+                }
+            }
+            path.pop();
+        }
+        let mut out = Vec::new();
+        for n in nodes {
+            walk(n, &mut Vec::new(), &mut out);
+        }
+        out
+    }
+    let rows = rows(&printed);
+    let tree = twinref::build(spec);
+    let cases = twinref::cases(&tree);
+    let benches: BTreeMap<u32, &BenchSpec> = spec
+        .items
+        .iter()
+        .filter_map(|i| match i {
+            Item::Bench(b) => Some((b.uid, b)),
+            _ => None,
+        })
+        .collect();
+    let mut reordered = false;
+    let mut last: Option<(u32, Option<String>, Option<String>, usize)> = None;
+    let mut hits = run.hits.iter().peekable();
+    for row in &rows {
+        let mut comps: Vec<String> = row.clone();
+        let mut row_threads: Option<usize> = None;
+        if let Some(l) = comps.last() {
+            if let Some(t) = l.strip_prefix("t=") {
+                row_threads = t.parse::<usize>().ok();
+                comps.pop();
+            }
+        }
+        // The declared case this row stands for (by its label path).
+        let candidates: Vec<&RCase> = cases.iter().filter(|c| c.path == comps).collect();
+        if candidates.len() != 1 {
+            if candidates.is_empty() {
+                return Err(("row-without-case".into(), format!("row {row:?} is not a declared case\n{}", run.stdout)));
+            }
+            // Duplicate display paths: rows cannot be told apart.
+            return Err(("__inconclusive".into(), "duplicate display paths".into()));
+        }
+        let case = candidates[0];
+        let bench = benches[&case.uid];
+        let eff = case.effective(&OptSpec::default());
+        let counts = thread_counts(&eff.threads);
+        let t = row_threads.unwrap_or(counts[0]);
+        let has_samples = eff.sample_count != Some(0) && eff.sample_size != Some(0) && eff.max_time_ns != Some(0);
+        // A Bencher function logs once per run; a plain function logs once per
+        // call, i.e. once per thread in test mode (never without samples).
+        let expect_hits = if uses_bencher(bench) { 1 } else if has_samples { t } else { 0 };
+        for _ in 0..expect_hits {
+            let Some((uid, ty, cst, arg, threads)) = hits.next() else {
+                return Err(("rows-vs-invocations".into(), format!("row {row:?} should have invoked the function {expect_hits} time(s) but the log ends\n{}", run.stdout)));
+            };
+            let got = (*uid, type_label_of(ty), if cst.is_empty() { None } else { Some(cst.clone()) }, if arg.is_empty() && case.arg.is_none() { None } else { Some(arg.clone()) });
+            let want = (case.uid, case.type_label.clone(), case.const_label.clone(), case.arg.clone());
+            if got != want {
+                let what = if got.0 != want.0 {
+                    "benchmark"
+                } else if got.3 != want.3 {
+                    "argument"
+                } else {
+                    "instantiation"
+                };
+                return Err((
+                    format!("label-vs-received:{what}"),
+                    format!("the row labelled {:?} invoked uid {} with type {:?}, const {:?}, argument {:?}; the label names uid {} type {:?} const {:?} argument {:?} (this row should log {expect_hits} time(s); log: {:?})\n{}", row.join("::"), got.0, got.1, got.2, got.3, want.0, want.1, want.2, want.3, run.hits.iter().map(|h| (h.0, h.1.clone(), h.4)).collect::<Vec<_>>(), run.stdout),
+                ));
+            }
+            if *threads != 0 && *threads != t {
+                return Err(("thread-branch".into(), format!("row {row:?} ran with {threads} threads")));
+            }
+        }
+        if let Some(idx) = case.arg_index {
+            if let Some((u, ty, c, prev)) = &last {
+                if *u == case.uid && *ty == case.type_label && *c == case.const_label && idx < *prev {
+                    reordered = true;
+                }
+            }
+            last = Some((case.uid, case.type_label.clone(), case.const_label.clone(), idx));
+        }
+    }
+    if let Some(extra) = hits.next() {
+        return Err(("rows-vs-invocations".into(), format!("more function invocations than rows explain (next: {extra:?})\n{}", run.stdout)));
+    }
+    for item in &spec.items {
+        if let Item::Bench(b) = item {
+            if let Some(a) = &b.args {
+                let registers = !(b.types.as_ref().map(|t| t.is_empty()).unwrap_or(false) || b.consts.as_ref().map(|c| c.len() == 0).unwrap_or(false));
+                if a.len() > 0 && registers {
+                    let n = run.arg_evals.get(&b.uid).copied().unwrap_or(0);
+                    if n != 1 {
+                        return Err(("args-evaluated".into(), format!("the args expression of {} (uid {}) was evaluated {n} times in one process", b.meta.raw_name, b.uid)));
+                    }
+                }
+            }
+        }
+    }
+    Ok(reordered)
+}
+
+thread_local! {
+    static BUILT: std::cell::RefCell<Option<Result<std::rc::Rc<Built>, String>>> = const { std::cell::RefCell::new(None) };
+}
+
+pub fn built(ctx: &Ctx) -> Result<std::rc::Rc<Built>, String> {
+    BUILT.with(|b| {
+        let mut b = b.borrow_mut();
+        if b.is_none() {
+            *b = Some(programs(ctx, program_count(ctx.tier)).map(std::rc::Rc::new));
+        }
+        b.as_ref().unwrap().clone()
+    })
+}
+
+pub fn c17_groups(g: &mut Groups) {
+    // Compiled programs are built once, by shard 0.
+    if !g.is_run() || g.ctx.shard != 0 {
+        // Replays of e3 cases depend on the programs generated in the run
+        // that found them; they are reported with the program source instead.
+        return;
+    }
+    let ctx = g.ctx;
+    let built = match built(ctx) {
+        Ok(b) => b,
+        Err(e) => {
+            // A generator that emits uncompilable programs is an
+            // infrastructure problem (exit 2), never a violation.
+            ctx.note(format!("INFRA: e3 programs unavailable: {e}"));
+            return;
+        }
+    };
+    let mut cases = Vec::new();
+    for k in 0..built.specs.len() {
+        for mode in ["", "--sort=name", "--sortr=name", "--sortr=kind", "--sort=location", "--sortr=location"] {
+            cases.push(ProgCase { program: k, mode: mode.to_string() });
+        }
+    }
+    g.enumerate_local(
+        "macro_programs",
+        cases,
+        |c: &ProgCase| {
+            let spec = &built.specs[c.program];
+            let mut args = vec!["--test", "--include-ignored"];
+            if !c.mode.is_empty() {
+                args.push(&c.mode);
+            }
+            let run = run_prog(&built.exes[c.program].0, &args, &[], &format!("c17-{}", std::process::id()));
+            match judge_c17(spec, &run) {
+                Ok(reordered) => {
+                    classify(format!("mode={}", c.mode));
+                    Verdict::pass(reordered || !c.mode.is_empty())
+                }
+                Err((sig, msg)) if sig == "__inconclusive" => Verdict::Inconclusive(msg),
+                Err((sig, msg)) => Verdict::fail(format!("macro:{sig}"), format!("{msg}\nprogram: {}", progs_dir().join(format!("benches/p{}.rs", c.program)).display())),
+            }
+        },
+    );
+
+}
